@@ -74,3 +74,155 @@ func init() {
 		}
 	})
 }
+
+// Rules added after round-3 seeds C10-7, C20-8, C42-8.
+func init() {
+	extend("C10", func(r *Run) {
+		r.Rule("C10.retry-canonical", "the retry selections put their candidate operators in address order before any seeded shuffle or exclusion draw", 2)
+		rootVar := func(v ssa.Value) ssa.Value {
+			for {
+				switch x := v.(type) {
+				case *ssa.MakeInterface:
+					v = x.X
+				case *ssa.ChangeType:
+					v = x.X
+				case *ssa.Slice:
+					v = x.X
+				case *ssa.UnOp:
+					if x.Op != token.MUL {
+						return v
+					}
+					v = x.X
+				default:
+					return v
+				}
+			}
+		}
+		for _, name := range []string{"EvaluateRetryParticipantsForSigning", "EvaluateRetryParticipantsForKeyGeneration"} {
+			fn := r.MustFn("C10.retry-canonical", "pkg/tecdsa/retry", name)
+			if fn == nil {
+				continue
+			}
+			sorts := CallsMatching(fn, `^sort\.Sort$`)
+			var uses []ssa.CallInstruction
+			uses = append(uses, CallsMatching(fn, `^math/rand\.Rand\.Shuffle$`)...)
+			uses = append(uses, CallsMatching(fn, `pkg/tecdsa/retry\.exclude`)...)
+			ok := len(uses) > 0
+			var why []string
+			for _, u := range uses {
+				// the operator lists this draw works on
+				var lists []ssa.Value
+				for _, a := range u.Common().Args {
+					if mc, isC := a.(*ssa.MakeClosure); isC {
+						lists = append(lists, mc.Bindings...)
+						continue
+					}
+					if sl, isS := a.Type().Underlying().(*types.Slice); isS && strings.HasSuffix(sl.Elem().String(), "chain.Address") {
+						lists = append(lists, rootVar(a))
+					}
+				}
+				covered := false
+				for _, l := range lists {
+					if p, isP := l.(*ssa.Parameter); isP && p.Name() == "groupMembers" {
+						continue // the seat list is positional, not a candidate list
+					}
+					for _, s := range sorts {
+						if (rootVar(s.Common().Args[0]) == l || Desc(rootVar(s.Common().Args[0])) == Desc(rootVar(l))) && isByAddress(s.Common().Args[0]) &&
+							InstrBefore(s.(ssa.Instruction), u.(ssa.Instruction)) {
+							covered = true
+						}
+					}
+				}
+				if !covered {
+					ok = false
+					why = append(why, r.W.Pos(u.Pos()))
+				}
+			}
+			r.Cond(ok, "C10.retry-canonical", FnName(fn), fn.Pos(), fmt.Sprintf("every one of the %d seeded draws works on a list sorted with byAddress first; uncovered: %s", len(uses), strings.Join(why, ", ")))
+		}
+	})
+	extend("C20", func(r *Run) {
+		r.Rule("C20.configured-protocol", "both directions of the transport hand the handshake the protocol identifier the transport was configured with", 3)
+		for _, name := range []string{"transport.SecureInbound", "transport.SecureOutbound"} {
+			fn := r.MustFn("C20.configured-protocol", "pkg/net/libp2p", name)
+			if fn == nil {
+				continue
+			}
+			cs := CallsMatching(fn, `pkg/net/libp2p\.newAuthenticated(In|Out)boundConnection$`)
+			ok := len(cs) == 1
+			got := ""
+			for _, c := range cs {
+				args := c.Common().Args
+				got = Desc(args[len(args)-1])
+				if got != "P0.authProtocolID" {
+					ok = false
+				}
+			}
+			r.Cond(ok, "C20.configured-protocol", FnName(fn), fn.Pos(), "the protocol argument of the authenticated-connection constructor is the transport's authProtocolID field; got "+got)
+		}
+		if ctor := r.MustFn("C20.configured-protocol", "pkg/net/libp2p", "newEncryptedAuthenticatedTransport"); ctor != nil {
+			ok := false
+			EachInstr(ctor, func(in ssa.Instruction) {
+				st, isSt := in.(*ssa.Store)
+				if !isSt {
+					return
+				}
+				if fa, isFA := st.Addr.(*ssa.FieldAddr); isFA && fieldName(fa.X.Type(), fa.Field) == "authProtocolID" {
+					if p, isP := st.Val.(*ssa.Parameter); isP && p.Name() == "authProtocolID" {
+						ok = true
+					}
+				}
+			})
+			r.Cond(ok, "C20.configured-protocol", FnName(ctor), ctor.Pos(), "the constructor stores its authProtocolID parameter in the field of the same name")
+		}
+	})
+	extend("C42", func(r *Run) {
+		r.Rule("C42.policy-each-check", "every status check asks the caller's join policy itself, and a join policy keeps no answer from one check to the next", 2)
+		mp := r.MustFn("C42.policy-each-check", "pkg/sortition", "MonitorPool")
+		if mp != nil {
+			n, bad := 0, []string{}
+			for _, f := range WithClosures(mp) {
+				for _, c := range CallsMatching(f, `pkg/sortition\.checkOperatorStatus$`) {
+					n++
+					a := c.Common().Args[2]
+					want := "?"
+					for i, p := range mp.Params {
+						if p.Name() == "policy" {
+							want = fmt.Sprintf("P%d", i)
+						}
+					}
+					okArg := Desc(a) == want || Desc(a) == "up("+want+")"
+					if !okArg {
+						bad = append(bad, r.W.Pos(c.Pos())+" passes "+Desc(a))
+					}
+				}
+			}
+			r.Cond(n >= 2 && len(bad) == 0, "C42.policy-each-check", FnName(mp), mp.Pos(), fmt.Sprintf("all %d status checks receive MonitorPool's own policy parameter: %s", n, strings.Join(bad, "; ")))
+		}
+		// every ShouldJoin implementation in non-test code is stateless
+		n := 0
+		var bad []string
+		for _, fn := range r.W.AllFuncs {
+			if fn.Name() != "ShouldJoin" || fn.Signature.Recv() == nil || fn.Parent() != nil || fn.Blocks == nil {
+				continue
+			}
+			n++
+			EachInstr(fn, func(in ssa.Instruction) {
+				if st, isSt := in.(*ssa.Store); isSt {
+					if _, isFA := st.Addr.(*ssa.FieldAddr); isFA && strings.HasPrefix(Desc(st.Addr), "&P0.") {
+						bad = append(bad, r.W.Pos(st.Pos()))
+					}
+				}
+			})
+		}
+		r.Cond(n >= 1 && len(bad) == 0, "C42.policy-each-check", "ShouldJoin implementations", token.NoPos, fmt.Sprintf("%d implementation(s) write no receiver field: %s", n, strings.Join(bad, ", ")))
+	})
+}
+
+
+func isByAddress(v ssa.Value) bool {
+	if mi, ok := v.(*ssa.MakeInterface); ok {
+		return strings.HasSuffix(mi.X.Type().String(), "retry.byAddress")
+	}
+	return false
+}
